@@ -373,6 +373,8 @@ def write_scsv_header(stream, schema, comments=None):
             stream.write(f"      unit: {unit}{os.linesep}")
         if "fill" in field:
             fill = field["fill"]
+            if fill == "":
+                fill = "''"  # An empty YAML scalar would be parsed as null.
             stream.write(f"      fill: {fill}{os.linesep}")
     stream.write("---" + os.linesep)
 
